@@ -68,6 +68,9 @@ def runCase (cx : Ctx) : String := Id.run do
     out := out.push (record cx "Y" k st.cur.pos (cx.rep st.cur))
   for n in [0:tokCount cx + 1] do
     out := out.push (record cx "T" n (tokWalk cx n cx.start).cur.pos (posTok cx n))
+  -- the same walk on the inner input of `rematch< until< eof >, … >`: same bytes, same positions
+  for n in [0:tokCount cx + 1] do
+    out := out.push (record cx "R" n (tokWalk cx n cx.start).cur.pos (posTok cx n))
   return " ".intercalate out.toList
 
 def step (line : String) : String :=
